@@ -266,7 +266,9 @@ func runBehaviour(evs []event, c *conc) *verdict {
 	pw := network.NewPacketWriter(&wire)
 	rd := startReader()
 	defer rd.eof()
-	hitKind, hitPkt := "", 0
+	// alterations so far: hitKind = kind of the first one, hitPkt = first packet with an altered header,
+	// length, payload or hash (0: none), elHit = an ext length was altered
+	hitKind, hitPkt, elHit := "", 0, false
 	nsent := 0
 	for i, e := range evs {
 		switch e.Op {
@@ -309,7 +311,22 @@ func runBehaviour(evs []event, c *conc) *verdict {
 			nsent++
 		case "corrupt":
 			sp := cells[e.At-1]
-			hitKind, hitPkt = e.Kind, e.N
+			if hitKind == "" {
+				hitKind = e.Kind
+			} else {
+				hitKind += "+" + e.Kind
+			}
+			if e.Kind == "hash" && e.V == 0 {
+				hitKind += "=0"
+			}
+			if e.Kind == "hv" || e.Kind == "pl" || e.Kind == "pay" || e.Kind == "hash" {
+				if hitPkt == 0 || e.N < hitPkt {
+					hitPkt = e.N
+				}
+			}
+			if e.Kind == "el" {
+				elHit = true
+			}
 			switch e.Kind {
 			case "pl":
 				n := uint32(e.V * c.blk)
@@ -320,6 +337,14 @@ func runBehaviour(evs []event, c *conc) *verdict {
 			case "el":
 				f := binary.BigEndian.Uint16(img[sp.a:sp.b])
 				binary.BigEndian.PutUint16(img[sp.a:sp.b], f&0xFC00|uint16(e.V*c.eblk))
+			case "hash":
+				if e.V == 0 { // the footer hash blanked to all zeros
+					for k := sp.a; k < sp.b; k++ {
+						img[k] = 0
+					}
+				} else {
+					img[sp.a+c.rnd.Intn(sp.b-sp.a)] ^= 1 << uint(c.rnd.Intn(8))
+				}
 			default: // one bit of one byte of the cell
 				img[sp.a+c.rnd.Intn(sp.b-sp.a)] ^= 1 << uint(c.rnd.Intn(8))
 			}
@@ -354,7 +379,7 @@ func runBehaviour(evs []event, c *conc) *verdict {
 		return &verdict{"packet:driver", "behaviour does not end with eof", false}
 	}
 	got := rd.got
-	protected := hitKind == "hv" || hitKind == "pl" || hitKind == "pay" || hitKind == "hash"
+	protected := hitPkt > 0
 	if protected && len(got) >= hitPkt {
 		return &verdict{"packet:corruption-accepted:" + hitKind,
 			fmt.Sprintf("packet %d had its %s altered in transit but ReadPacket returned %d packets without error (blk=%d)", hitPkt, hitKind, len(got), c.blk), true}
@@ -370,7 +395,7 @@ func runBehaviour(evs []event, c *conc) *verdict {
 			return &verdict{"packet:field-mismatch", fmt.Sprintf("packet %d: %s (blk=%d)", j+1, w, c.blk), true}
 		}
 	}
-	if hitKind == "el" {
+	if elHit {
 		return nil // how much follows a wrong ext length depends on block sizes; header/payload were compared
 	}
 	if len(got) != len(last.Out) {
